@@ -481,7 +481,7 @@ fn facts_hold(prog: &Prog, d: &Dump, m: &dyn DynModel) -> bool {
     true
 }
 
-pub fn run_c07(prog: &Prog, ops: &[Op], k: Option<u32>) -> Result<RunInfo, Fail> {
+pub fn run_c07(prog: &Prog, ops: &[Op], k: Option<u32>, again: bool) -> Result<RunInfo, Fail> {
     let p = &prog.program;
     let mut info = RunInfo::default();
     // split: assertions before the cancelled close | assertions after it ("more")
@@ -593,6 +593,22 @@ pub fn run_c07(prog: &Prog, ops: &[Op], k: Option<u32>) -> Result<RunInfo, Fail>
         info.closes_cancelled += 1;
         if !facts_hold(prog, target, b.as_ref()) {
             return Err(("true-without-condition".into(), format!("close_until returned true (poll {}) but its condition does not hold", polls.get())));
+        }
+        if again {
+            // a second close_until whose (monotone) condition already holds on entry: it must
+            // return true at once and must not disturb what the first call left pending
+            let polls2 = std::cell::Cell::new(0u32);
+            let ret2 = b.close_until(&|v: &dyn DynModel| {
+                polls2.set(polls2.get() + 1);
+                polls2.get() > 3 || facts_hold(prog, target, v)
+            });
+            if !ret2 || polls2.get() > 1 {
+                return Err((
+                    "condition-not-monotone".into(),
+                    format!("a second close_until with the same condition returned {ret2} after {} polls although the condition held on entry", polls2.get()),
+                ));
+            }
+            info.closes_cancelled += 1;
         }
     } else {
         if facts_hold(prog, target, b.as_ref()) {
@@ -949,7 +965,9 @@ pub fn worker(args: &WorkerArgs, progs: &[Prog], stats: &mut ShardStats) {
     if wants_model {
         stats.declare_fault("late_structure");
         stats.declare_fault("early_structure");
-        stats.declare_probe("toposort_calls_with_morphisms");
+        if prop == "C18" {
+            stats.declare_probe("toposort_calls_with_morphisms");
+        }
     }
     if eligible.is_empty() {
         stats.diagnostics.push("the corpus holds no program this property applies to".into());
@@ -1003,6 +1021,8 @@ pub fn worker(args: &WorkerArgs, progs: &[Prog], stats: &mut ShardStats) {
                 for k in 0..12u32 {
                     let mut c = crate::history_case("C07", prog, &ops, seed);
                     c.set("k", Json::Int(k as i64));
+                    // every other cancellation point is followed by a second, immediately true, close_until
+                    c.set("again", Json::Bool((k as u64 + seed) % 2 == 1));
                     v.push(c);
                 }
                 v
@@ -1076,7 +1096,9 @@ pub fn worker(args: &WorkerArgs, progs: &[Prog], stats: &mut ShardStats) {
                     }
                 }
                 Ok(Err((class, _))) => {
-                    if report(stats, progs, prop, case, class, seed, idx) {
+                    let stop = report(stats, progs, prop, case, class, seed, idx);
+                    let _ = stats.write(args, "modelsim");
+                    if stop {
                         return;
                     }
                     if prop == "C07" {
